@@ -15,9 +15,22 @@ EXTRA = [
 ]
 
 
+# negation scope and grouping around EVERY comparison operator, standard and extension
+_OPS = [("==", "1"), ("!=", "1"), ("<", "2"), ("<=", "1"), (">", "0"), (">=", "1"), ("in", "[1, 2, 'a']"), ("contains", "1"), ("<>", "1"), ("=~", "/a.*/")]
+NEGATIONS = (
+    [f"$[?!(@.a {op} {rhs})]" for op, rhs in _OPS]
+    + [f"$[?!(@.a {op} {rhs}) && @.b]" for op, rhs in _OPS]
+    + [f"$[?@.b || !(@.a {op} {rhs})]" for op, rhs in _OPS]
+    + [f"$[?!(@.a {op} {rhs} || @.b)]" for op, rhs in _OPS]
+    + [f"$[?!(!(@.a {op} {rhs}))]" for op, rhs in _OPS]
+)
+_NEG_DOCS = [[{"a": 1, "b": 1}, {"a": 2}, {"a": "a", "b": 0}, {"a": "abc"}, {"a": [1, 2]}, {"a": 0, "b": None}, {"b": 1}, {"a": None}, {"a": False}]]
+
+
 def run(tier, seed):
     docs, texts = U.mixed_queries(tier, seed)
-    texts = texts + EXTRA
+    texts = texts + EXTRA + NEGATIONS
+    docs = docs + _NEG_DOCS
     rec = U.Recorder(f"{len(texts)} accepted queries (standard, filters with every grouping, literals, regex flags, extensions, compound) x {len(docs)} documents")
     env = jsonpath.JSONPathEnvironment()
     fc = {"x": 2}
